@@ -225,9 +225,9 @@ class RuleExpandRunner(PySHACLRunType):
 
         if self.debug:
             self.logger.debug(f"Running SHACL Rules on DataGraph named {g.identifier}")
-        if gathered_functions:
-            apply_functions(executor, gathered_functions, g)
         try:
+            if gathered_functions:
+                apply_functions(executor, gathered_functions, g)
             if gathered_rules:
                 apply_rules(executor, gathered_rules, g, focus_nodes=on_focus_nodes)
         finally:
